@@ -9,11 +9,11 @@ META = dict(
           "out-of-order, overlapping, NaN windows and intervals) with the other slots valid, on five input kinds, followed by a "
           "follow-up use of the same objects; (program) random 3-10 step table-operation programs on table collections "
           "corrupted by 1-3 operators (out-of-range ids per reference column, NaN/inf/out-of-range coordinates, shuffled rows, "
-          "stale/out-of-range/truncated index, dangling individual parents); (oom, thorough) every tsk allocation of ~34 calls "
+          "stale/out-of-range/truncated index, dangling individual parents); (oom) every tsk allocation of ~34 calls "
           "failed in turn through an LD_PRELOAD shim. Oracle: process status + ASan/UBSan log, SystemError, hang watchdog, and "
           "'must raise' for identifiers outside the documented range. Distinct = sha1 of (call, input kind, input rows) or "
           "(rows, corruption list); trivial when no corruption applied."),
-    REQUIRED=["calls", "program-ops", "id-clause-checks", "followup-probes"],
+    REQUIRED=["calls", "program-ops", "id-clause-checks", "followup-probes", "oom-injections"],
     ASSUMPTIONS=ASSUME_COMMON + [
         "UBSan nonnull-attribute is disabled (memcpy(NULL, .., 0) on empty columns is treated as defined)",
         "a watchdog firing counts only after an isolated re-run with 5x the budget hangs again",
